@@ -39,15 +39,43 @@ impl Creds {
 
 const ALPHABET: &[char] = &['a', 'b', 'Z', '0', ':', ' ', 'é', 'ß', '中', '😀', '\u{0}', '/', 'p', '"', 'z', '\t'];
 
+/// Characters that string-preparation profiles (SASLprep, PRECIS OpaqueString / UsernameCaseMapped)
+/// map, fold or delete: non-ASCII spaces, soft hyphen, zero-width joiner, compatibility forms
+/// (ligature, Angstrom sign, fullwidth letter), a combining accent, mixed with a few plain ones.  RFC
+/// 8489 derives keys from the strings *as given* (the application prepares them); a key derivation
+/// that normalises on its own identifies different keys.
+const ALPHABET_PREP: &[char] = &['a', '\u{a0}', '\u{3000}', '\u{2003}', '\u{ad}', '\u{200d}', '\u{fb01}', '\u{212b}', '\u{ff21}', '\u{301}', 'e', ' ', 'A', 'k', '\u{c5}', ':'];
+
+/// The string a normalising implementation would identify `s` with (None if `s` has nothing to normalise).
+pub fn prep_twin(s: &str) -> Option<String> {
+    let mut o = String::new();
+    for c in s.chars() {
+        match c {
+            '\u{a0}' | '\u{3000}' | '\u{2000}'..='\u{200a}' | '\u{202f}' | '\u{205f}' | '\u{1680}' => o.push(' '),
+            '\u{ad}' | '\u{200d}' | '\u{200c}' | '\u{200b}' => {}
+            '\u{fb01}' => o.push_str("fi"),
+            '\u{212b}' => o.push('\u{c5}'),
+            '\u{ff21}' => o.push('A'),
+            c => o.push(c),
+        }
+    }
+    if o == s {
+        None
+    } else {
+        Some(o)
+    }
+}
+
 pub fn gen_string(ch: &mut Choices, max_chars: u64) -> String {
     // one string in twelve is long: sized around the boundaries text handling tends to have (HMAC
     // block 64, the 128-character / 513- and 763-byte limits of the text attributes, 255/256); the
     // alphabet mixes 1-, 2-, 3- and 4-byte characters, so byte offsets 64, 128, 256, 512 fall inside
     // a character in many of them
     let n = if ch.rare(1, 12) { *ch.pick(&[62u64, 64, 66, 90, 126, 128, 129, 200, 256, 509, 700, 763, 1100]) + ch.below(4) } else { ch.range(0, max_chars) };
+    let alphabet = if ch.rare(1, 6) { ALPHABET_PREP } else { ALPHABET };
     let mut s = String::new();
     for _ in 0..n {
-        s.push(*ch.pick(ALPHABET));
+        s.push(*ch.pick(alphabet));
     }
     s
 }
@@ -96,7 +124,7 @@ pub fn same_hmac_key(a: &Creds, b: &Creds) -> bool {
 /// A credential that differs from `c` (guaranteed different key material by construction of the
 /// returned description, checked by the caller where it matters).
 pub fn gen_other_creds(ch: &mut Choices, c: &Creds) -> Creds {
-    let k = ch.below(10);
+    let k = ch.below(11);
     // "nearly the same" keys: what a normalising (trimming, unquoting, case-folding) key
     // derivation would wrongly identify with the original
     let near = |s: &str, k: u64| -> String {
@@ -110,12 +138,14 @@ pub fn gen_other_creds(ch: &mut Choices, c: &Creds) -> Creds {
                     format!("{s}A")
                 }
             }
+            // what a string-preparing key derivation would identify it with
+            10 => prep_twin(s).unwrap_or_else(|| format!("{s}\u{a0}")),
             _ => format!("{s}\""),
         }
     };
     let o = match (k, c) {
-        (6..=9, Creds::Short(p)) => Creds::Short(near(p, k)),
-        (6..=9, Creds::Long { user, realm, password }) => match ch.below(3) {
+        (6..=10, Creds::Short(p)) => Creds::Short(near(p, k)),
+        (6..=10, Creds::Long { user, realm, password }) => match ch.below(3) {
             0 => Creds::Long { user: user.clone(), realm: near(realm, k), password: password.clone() },
             1 => Creds::Long { user: near(user, k), realm: realm.clone(), password: password.clone() },
             _ => Creds::Long { user: user.clone(), realm: realm.clone(), password: near(password, k) },
